@@ -37,6 +37,45 @@ __datatypes_constructors = {}
 __datatypes_selectors = {}
 
 
+def get_bound_symbols(term):
+    """Return the names bound by binders (``let``, ``forall``, ``exists``,
+    ``match``) that occur in ``term``."""
+    res = set()
+    for node in nodes.dfs(term):
+        if node.is_leaf() or len(node) < 3 or not node.has_ident():
+            continue
+        ident = node.get_ident()
+        if ident in ('let', 'forall', 'exists') and not node[1].is_leaf():
+            for var in node[1]:
+                if not var.is_leaf() and len(var) > 0 and var[0].is_leaf():
+                    res.add(var[0].data)
+        elif ident == 'match' and not node[2].is_leaf():
+            for case in node[2]:
+                if not case.is_leaf() and len(case) > 0:
+                    # over-approximation: every symbol of the pattern
+                    res.update(n.data for n in nodes.dfs(case[0])
+                               if n.is_leaf())
+    return res
+
+
+def __instantiate(cmd, args):
+    """Return the body of the ``define-fun`` command ``cmd`` with its
+    parameters replaced by ``args``, or ``None`` if the plain substitution
+    would not denote the application: a binder in the body binds a symbol of
+    an argument (capture) or a parameter (the parameter is shadowed there)."""
+    bound = get_bound_symbols(cmd[4])
+    if bound:
+        names = set(p[0].data for p in cmd[2]
+                    if not p.is_leaf() and len(p) > 0 and p[0].is_leaf())
+        for arg in args:
+            names.update(n.data for n in nodes.dfs(arg) if n.is_leaf())
+        if bound & names:
+            return None
+    return nodes.substitute(cmd[4],
+                            {cmd[2][i][0]: args[i]
+                             for i in range(len(args))})
+
+
 def collect_information(exprs):  # noqa: C901
     """Initialize global lookups for first-order constants, defined functions
     and sorts of all these symbols."""
@@ -94,9 +133,7 @@ def collect_information(exprs):  # noqa: C901
             if cmd[2] == tuple():
                 __constants[cmd[1]] = cmd[3]
             __defined_functions[cmd[1]] = (len(
-                cmd[2]), lambda args, cmd=cmd: nodes.substitute(
-                    cmd[4], {cmd[2][i][0]: args[i]
-                             for i in range(len(args))}))
+                cmd[2]), lambda args, cmd=cmd: __instantiate(cmd, args))
             __definition_node_ids.add(cmd[1].id)
             __definition_node_ids.add(cmd[4].id)
             __sort_lookup[cmd[1].data] = cmd[3]
@@ -171,6 +208,9 @@ def collect_information(exprs):  # noqa: C901
                 if sym.is_leaf():
                     __sort_lookup[sym.data] = get_sort(term)
                     __definition_node_ids.add(sym.id)
+                    # in the scope of this binder the name is not the
+                    # defined function: do not inline any of its occurrences
+                    __defined_functions.pop(sym, None)
         # Determine sort of symbols introduced by quantifiers
         if (is_operator_app(node, 'exists')
                 or is_operator_app(node, 'forall')) and len(node) > 1:
@@ -181,6 +221,7 @@ def collect_information(exprs):  # noqa: C901
                 if sym.is_leaf():
                     __sort_lookup[sym.data] = term
                     __definition_node_ids.add(sym.id)
+                    __defined_functions.pop(sym, None)
 
 
 def reset_information():
@@ -863,7 +904,9 @@ def get_defined_fun(node):
         return func([])
     arity, func = __defined_functions[node.get_ident()]
     if arity == len(node[1:]):
-        return func(node[1:])
+        res = func(node[1:])
+        if res is not None:
+            return res
     return node
 
 
